@@ -132,20 +132,28 @@ class MeasureCpu(Contract):
         return r.replay_cone("cpu")
 
 
-def _completeness(S, sites, rmax, extra_hyp=()):
+def _completeness(S, sites, rmax, extra_hyp=(), pair=None, capacity=False, masks=None):
     """the loop-local symbols (source position, candidate position) are shared by all paths (deterministic fresh names).  Under
     the loop-domain facts of the generic iteration (ball membership, index ranges, library axioms) strict admissibility must
     imply the branch conditions of some accept site.  Returns a list of (name, hyps, goal, tactics)."""
     st0 = sites[0]
     v = st0.value
-    src, tgt = sym.to_z3(v[1]), sym.to_z3(v[2])
+    src, tgt = (sym.to_z3(v[1]), sym.to_z3(v[2])) if pair is None else pair(st0)
     d, nv = S.d(src, tgt), S.normals.vec(src)
     d2 = sum(x * x for x in d)
     proj = sum(d[k] * nv[k] for k in range(3))
     strict = [d2 < rmax * rmax, proj > 0, proj * proj > S.c * S.c * d2]
     hyps = list(st0.domain) + [S.unit(src)] + strict + list(extra_hyp)
+    if masks is not None:  # kernels that test the surface masks themselves: the pair is of the right surfaces and in range
+        hyps += [src >= 0, src < S.n.t, tgt >= 0, tgt < S.n.t] + [sym.to_bool(m[SV(x)]) for m, x in zip(masks, (src, tgt)) if m is not None]
     def branch(st):
-        return [f for f in st.facts if not any(f.eq(g) for g in st.domain)]
+        fs = [f for f in st.facts if not any(f.eq(g) for g in st.domain)]
+        if capacity:
+            # the per-point capacity test (a loop-carried counter, havocked for the arbitrary iteration) is a hypothesis: "unless the capacity is reached"
+            cap = [f for f in fs if "hv_" in f.sexpr()]
+            hyps.extend(c for c in cap if not any(c.eq(h) for h in hyps))
+            fs = [f for f in fs if not any(f.eq(c) for c in cap)]
+        return fs
     if len(sites) == 1:
         return [(f"strictly_admissible_candidate_is_accepted.branch{j}", hyps, f, ("linear",)) for j, f in enumerate(branch(st0))]
     return [("strictly_admissible_candidate_is_accepted", hyps, z3.Or(*[z3.And(*branch(st)) for st in sites]), ())]
@@ -186,7 +194,19 @@ class NumbaKernel(Contract):
 
     def cross(self, cfg, paths):
         n = sum(len(inputs["md"].sites) for cx, inputs, out in paths if out[0] == "return")
-        return [("some_store_site_exists", [], z3.BoolVal(n >= 1))]
+        cl = [("some_store_site_exists", [], z3.BoolVal(n >= 1))]
+        sites, S, inp = [], None, None
+        for cx, inputs, out in paths:
+            if out[0] == "return":
+                sites += inputs["mi"].sites
+                S, inp = inputs["S"], inputs
+        if sites:
+            uniq = {}
+            for st in sites:
+                uniq.setdefault(tuple(sorted(f.sexpr() for f in st.facts)), st)
+            cl += [(nm.replace("is_accepted", "is_stored_unless_the_capacity_is_reached"), hy, g, t) for nm, hy, g, t in
+                   _completeness(S, list(uniq.values()), inp["rmax"].t, pair=lambda st: (sym.to_z3(st.value[0][0]), sym.to_z3(st.value[1])), capacity=True, masks=(S.s1, None))]
+        return cl
 
     def replay(self, clause, model, cfg):
         from rtc import c20 as r
@@ -236,7 +256,20 @@ class CudaKernel(Contract):
 
     def cross(self, cfg, paths):
         n = sum(len(inputs["md"].sites) for cx, inputs, out in paths if out[0] == "return")
-        return [("some_store_site_exists", [], z3.BoolVal(n >= 1))]
+        cl = [("some_store_site_exists", [], z3.BoolVal(n >= 1))]
+        sites, S, inp = [], None, None
+        for cx, inputs, out in paths:
+            if out[0] == "return":
+                sites += inputs["mi"].sites
+                S, inp = inputs["S"], inputs
+        if sites:
+            uniq = {}
+            for st in sites:
+                uniq.setdefault(tuple(sorted(f.sexpr() for f in st.facts)), st)
+            tid = inp["tid"].t
+            cl += [(nm.replace("is_accepted", "is_stored_unless_the_capacity_is_reached"), hy, g, t) for nm, hy, g, t in
+                   _completeness(S, list(uniq.values()), inp["rmax"].t, pair=lambda st: (tid, sym.to_z3(st.value[1])), capacity=True, masks=(S.s1, S.s2))]
+        return cl
 
     def replay(self, clause, model, cfg):
         from rtc import c20 as r
@@ -376,7 +409,7 @@ CONTRACTS = [MeasureCpu, NumbaKernel, CudaKernel, ProcessMatches]
 LEVEL = "proof"
 EXPLANATION = ("Accept-site obligations on the real ASTs of the three candidate kernels (generic source point x generic candidate): whatever is appended/stored is an admissible "
                "pair (Euclidean distance, within max thickness, ahead of the source along its unit normal, inside the cone d.n >= |d| cos(max_angle)), of the right surfaces for the "
-               "requested direction, and every strictly admissible ball-query candidate is accepted; the greedy one-to-one assignment loop by quantified invariants; rigid-motion "
+               "requested direction, and every strictly admissible candidate is accepted (CPU: every ball-query candidate; numba and CUDA kernels: every candidate of the right surfaces, unless the per-point capacity is reached); the greedy one-to-one assignment loop by quantified invariants; rigid-motion "
                "invariance and voxel scaling as lemmas. End-to-end runs (CPU path and numba kernel) as bounded stand-in.")
 ASSUMPTIONS = ["unit normals (requires); max_angle in [1,30] degrees with cos>sin>0; scipy KDTree.query_ball_point(q, r) returns exactly the tree positions within distance <= r; np.where(mask)[0] lists exactly the indices with mask true",
                "the CUDA kernel is verified as text only (it cannot be executed in this sandbox)"]
